@@ -131,7 +131,8 @@ def classify_exception(exc, dot_name=False):
         msg = str(exc)
         if 'NoneType' in msg:
             return 'internal:AttributeError-None'
-        if dot_name or 'has no attribute' in msg or 'no setter' in msg:
+        # documented: the library's own unknown-name message, or an AttributeError raised by the dot-name protocol
+        if dot_name or 'Allowed attributes are' in msg:
             return 'documented'
         return 'internal:AttributeError'
     if isinstance(exc, DOCUMENTED):
